@@ -1,7 +1,195 @@
-// Package c03 interprets the C03 op language against the real packages (stub).
+// Package c03 interprets the C03 op language against the real packages: circuitbreaker.LoadRules,
+// api.Entry / api.TraceError / Exit, a registered StateChangeListener, virtual clock.
 package c03
 
-import "verifharness/internal/vh"
+import (
+	"errors"
+	"fmt"
+	"runtime"
+	"runtime/debug"
+	"strconv"
+	"strings"
 
-// New returns the interpreter for C03.
-func New() vh.Interp { return nil }
+	"github.com/alibaba/sentinel-golang/api"
+	"github.com/alibaba/sentinel-golang/core/base"
+	"github.com/alibaba/sentinel-golang/core/circuitbreaker"
+	"github.com/alibaba/sentinel-golang/core/flow"
+	"github.com/alibaba/sentinel-golang/core/hotspot"
+	"github.com/alibaba/sentinel-golang/core/isolation"
+	"github.com/alibaba/sentinel-golang/core/stat"
+	"github.com/alibaba/sentinel-golang/core/system"
+	"verifharness/internal/vh"
+)
+
+type Interp struct {
+	clk     *vh.Clock
+	rules   []*circuitbreaker.Rule
+	live    map[uint64]*base.SentinelEntry
+	pending []string
+	state   map[string]string // rule id -> C/H/O as told by the listener
+	loaded  bool
+}
+
+var errBiz = errors.New("biz")
+
+func New() vh.Interp {
+	runtime.GOMAXPROCS(1)
+	runtime.LockOSThread()
+	debug.SetGCPercent(-1)
+	vh.Silence()
+	it := &Interp{clk: vh.NewClock(1_900_000_000_000)}
+	return it
+}
+
+func (it *Interp) Reset() {
+	_, _ = circuitbreaker.LoadRules(nil)
+	circuitbreaker.ClearStateChangeListeners()
+	_, _ = flow.LoadRules(nil)
+	_, _ = isolation.LoadRules(nil)
+	_, _ = hotspot.LoadRules(nil)
+	_, _ = system.LoadRules(nil)
+	stat.ResetResourceNodeMap()
+	it.rules = nil
+	it.live = map[uint64]*base.SentinelEntry{}
+	it.pending = nil
+	it.state = map[string]string{}
+	it.loaded = false
+	it.clk.SetMs(0)
+	circuitbreaker.RegisterStateChangeListeners(&listener{it})
+}
+
+func stCh(s circuitbreaker.State) string {
+	switch s {
+	case circuitbreaker.Closed:
+		return "C"
+	case circuitbreaker.HalfOpen:
+		return "H"
+	case circuitbreaker.Open:
+		return "O"
+	}
+	return "?"
+}
+
+type listener struct{ it *Interp }
+
+func (l *listener) OnTransformToClosed(prev circuitbreaker.State, rule circuitbreaker.Rule) {
+	l.it.pending = append(l.it.pending, fmt.Sprintf("%s:%sC", rule.Id, stCh(prev)))
+	l.it.state[rule.Id] = "C"
+}
+
+func (l *listener) OnTransformToOpen(prev circuitbreaker.State, rule circuitbreaker.Rule, snapshot interface{}) {
+	var sn string
+	switch v := snapshot.(type) {
+	case float64:
+		sn = vh.FBits(v)
+	case uint64:
+		sn = "u" + strconv.FormatUint(v, 10)
+	case int:
+		sn = "i" + strconv.Itoa(v)
+	default:
+		sn = fmt.Sprintf("?%T", snapshot)
+	}
+	l.it.pending = append(l.it.pending, fmt.Sprintf("%s:%sO:%s", rule.Id, stCh(prev), sn))
+	l.it.state[rule.Id] = "O"
+}
+
+func (l *listener) OnTransformToHalfOpen(prev circuitbreaker.State, rule circuitbreaker.Rule) {
+	l.it.pending = append(l.it.pending, fmt.Sprintf("%s:%sH", rule.Id, stCh(prev)))
+	l.it.state[rule.Id] = "H"
+}
+
+func parseRule(idx int, s string) *circuitbreaker.Rule {
+	f := strings.Split(s, ",")
+	if len(f) != 9 {
+		panic("bad rule " + s)
+	}
+	thr, ok := vh.ParseFBits(f[7])
+	if !ok {
+		panic("bad threshold " + f[7])
+	}
+	return &circuitbreaker.Rule{
+		Id:                           strconv.Itoa(idx),
+		Resource:                     f[0],
+		Strategy:                     circuitbreaker.Strategy(vh.U(f[1])),
+		RetryTimeoutMs:               uint32(vh.U(f[2])),
+		MinRequestAmount:             vh.U(f[3]),
+		StatIntervalMs:               uint32(vh.U(f[4])),
+		StatSlidingWindowBucketCount: uint32(vh.U(f[5])),
+		MaxAllowedRtMs:               vh.U(f[6]),
+		Threshold:                    thr,
+		ProbeNum:                     vh.U(f[8]),
+	}
+}
+
+func (it *Interp) Step(t []string, op string) string {
+	switch t[0] {
+	case "clock":
+		ms := vh.U(t[1])
+		if ms == 0 || ms < it.clk.CurrentTimeMillis() {
+			return "bad-op"
+		}
+		it.clk.SetMs(ms)
+		return ""
+	case "load":
+		if it.loaded || it.clk.CurrentTimeMillis() == 0 {
+			return "bad-op"
+		}
+		it.loaded = true
+		for i, s := range t[1:] {
+			it.rules = append(it.rules, parseRule(i, s))
+		}
+		if _, err := circuitbreaker.LoadRules(it.rules); err != nil {
+			return "err"
+		}
+		for _, r := range circuitbreaker.GetRules() {
+			it.state[r.Id] = "C"
+		}
+		return strconv.Itoa(len(circuitbreaker.GetRules()))
+	case "entry":
+		id := vh.U(t[1])
+		e, b := api.Entry(t[2])
+		if b != nil {
+			if b.BlockType() != base.BlockTypeCircuitBreaking {
+				return "block-other " + b.BlockType().String()
+			}
+			r, ok := b.TriggeredRule().(*circuitbreaker.Rule)
+			if !ok || r == nil {
+				return "block ?"
+			}
+			return "block " + r.Id
+		}
+		it.live[id] = e
+		return "pass"
+	case "exit":
+		id := vh.U(t[1])
+		if len(t) > 2 && t[2] != "err" {
+			return "bad-op"
+		}
+		e := it.live[id]
+		if e == nil {
+			return ""
+		}
+		delete(it.live, id)
+		if len(t) > 2 {
+			api.TraceError(e, errBiz)
+		}
+		e.Exit()
+		return ""
+	case "state":
+		var xs []string
+		for _, r := range it.rules {
+			if r.Resource != t[1] {
+				continue
+			}
+			if s, ok := it.state[r.Id]; ok {
+				xs = append(xs, s)
+			}
+		}
+		return vh.List(xs)
+	case "log":
+		xs := it.pending
+		it.pending = nil
+		return vh.List(xs)
+	}
+	return "bad-op"
+}
